@@ -439,8 +439,30 @@ pub fn gen_cases<G: AffineRepr>(seed: u64, tier: &str, stream: &str, curve_idx: 
                     ops2: rng.gen_range(0..5),
                     allow_missing: k % 4 == 0,
                 };
-                let g = gen_program::<F<G>>(&mut rng, &sh);
-                let n = (g.n1 + g.n2).next_power_of_two().max(1);
+                let mut sh = sh;
+                // targeted: the SECOND half of an allocation pair lacks its assignment (first phase: k % 8 == 0; inside a closure: k % 8 == 4)
+                let targeted = k % 8 == 0 || k % 8 == 4;
+                if targeted {
+                    sh.allow_missing = false;
+                    if k % 8 == 4 { sh.closures = sh.closures.max(1); }
+                }
+                let mut g = gen_program::<F<G>>(&mut rng, &sh);
+                if targeted && k % 8 == 0 {
+                    let singles = g.prog.iter().filter(|o| matches!(o, COp::Alloc(Some(_)))).count();
+                    if singles % 2 == 0 { g.prog.push(COp::Alloc(Some(F::<G>::rand(&mut rng)))); }
+                    g.prog.push(COp::Alloc(None));
+                }
+                if targeted && k % 8 == 4 {
+                    for op in g.prog.iter_mut() {
+                        if let COp::Randomize(body) = op {
+                            let singles = body.iter().filter(|o| matches!(o, ROp::Alloc(Some(_)))).count();
+                            if singles % 2 == 0 { body.push(ROp::Alloc(Some(Sx::C(F::<G>::rand(&mut rng))))); }
+                            body.push(ROp::Alloc(None));
+                            break;
+                        }
+                    }
+                }
+                let n = (g.n1 + g.n2 + 2).next_power_of_two().max(1);
                 let mut c = R1csCase::plain(id, g.prog, n, n, rng.gen());
                 c.tag = format!("{} n1={} n2={}", if k % 4 == 0 { "cs-missing" } else { "cs" }, g.n1, g.n2);
                 out.push(c);
